@@ -1,5 +1,6 @@
 from __future__ import annotations
 
+import re
 from dataclasses import dataclass
 from pathlib import Path
 from typing import List
@@ -22,6 +23,9 @@ class SMMapSet(
         """Reads a .sm file"""
         ms = SMMapSet()
         lines = "\n".join(lines) if isinstance(lines, list) else lines
+        # "//" starts a comment that runs to the end of its line; a comment
+        # may contain ":" or ";", so they go before the file is tokenized
+        lines = re.sub(r"[ \t]*//[^\n]*", "", lines)
         file_spl = [i.strip() for i in lines.split(";")]
         metadata = []
         maps = []
